@@ -169,6 +169,30 @@ pub const fn ilog_exact(n: Word, base: Word) -> u32 {
     }
 }
 
+/// If x and y are powers of a common integer (x = r^a and y = r^b with a, b >= 1), then return
+/// the largest such r together with a and b, otherwise return None.
+///
+/// This is Euclid's algorithm on the exponents: (r^a, r^b) -> (r^(a-b), r^b) by exact division.
+pub const fn common_root(x: Word, y: Word) -> Option<(Word, u32, u32)> {
+    if x < 2 || y < 2 {
+        return None;
+    }
+
+    let (mut u, mut v) = (x, y);
+    while u != v {
+        if u < v {
+            let t = u;
+            u = v;
+            v = t;
+        }
+        if u % v != 0 {
+            return None;
+        }
+        u /= v;
+    }
+    Some((u, ilog_exact(x, u), ilog_exact(y, u)))
+}
+
 #[cfg(test)]
 mod tests {
     use super::*;
